@@ -1,5 +1,6 @@
 import AslModel.Utf
 import AslProofs.Utf
+import AslProofs.UtfCase
 /-!
 # C08 — UTF-8/16/32 conversions are lossless on valid text and safe on any bytes
 
@@ -378,6 +379,11 @@ theorem cutovers : upperCut = 1415 ∧ lowerCut = 1415 ∧ nocaseCut1 = 1415 ∧
 theorem upper_shape : allPairs shapeOK 0 toUppercaseU8.toList = true := by decide +kernel
 theorem lower_shape : allPairs shapeOK 0 toLowercaseU8.toList = true := by decide +kernel
 
+/-- a one-byte entry of a non-zero code point is not NUL, a two-byte entry starts with a 2-byte lead C2–DF
+    (no entry is the cut-off beginning of a longer sequence: repaired in b3f3f80) -/
+theorem upper_shape2 : allPairs shape2OK 0 toUppercaseU8.toList = true := by decide +kernel
+theorem lower_shape2 : allPairs shape2OK 0 toLowercaseU8.toList = true := by decide +kernel
+
 /-- on ASCII the tables are the C-locale `toupper`/`tolower` -/
 theorem upper_ascii : allPairs (fun i a b => decide (128 ≤ i) || (a == Std.toupperC (UInt8.ofNat i) && b == 0)) 0
     toUppercaseU8.toList = true := by decide +kernel
@@ -403,56 +409,70 @@ theorem case_len_le (s : List UInt8) :
 /-- on ASCII text the case mappings are those of the C locale -/
 theorem ascii_case_c_locale (s : List UInt8) (h : ∀ b ∈ s, b ≠ 0 ∧ b.toNat < 128) :
     toUpperCase s = some (s.map Std.toupperC) ∧ toLowerCase s = some (s.map Std.tolowerC) := by
-  have hu : ∀ b : UInt8, b.toNat < 128 → mapCode toUppercaseU8 upperCut b.toNat = [Std.toupperC b] := by
-    intro b hb
+  have nz : ∀ b : UInt8, b ≠ 0 → b.toNat ≠ 0 := fun b hb e => hb (UInt8.toNat_inj.mp (by simpa using e))
+  have hu : ∀ b : UInt8, b ≠ 0 → b.toNat < 128 → mapGroup toUppercaseU8 upperCut (b.toNat, [b]) = [Std.toupperC b] := by
+    intro b hb0 hb
     have h1 := table_fact _ _ upper_ascii b.toNat (by have := tables_size.1; omega)
     have hd : decide (128 ≤ b.toNat) = false := decide_eq_false (by omega)
     simp only [hd, Bool.false_or, Bool.and_eq_true, beq_iff_eq, UInt8.ofNat_toNat] at h1
     have hc : b.toNat < upperCut := by have := cutovers.1; omega
-    simp [mapCode, hc, tableBytes, h1.1, h1.2]
-  have hl : ∀ b : UInt8, b.toNat < 128 → mapCode toLowercaseU8 lowerCut b.toNat = [Std.tolowerC b] := by
-    intro b hb
+    simp [mapGroup, nz b hb0, mapCode, hc, tableBytes, h1.1, h1.2]
+  have hl : ∀ b : UInt8, b ≠ 0 → b.toNat < 128 → mapGroup toLowercaseU8 lowerCut (b.toNat, [b]) = [Std.tolowerC b] := by
+    intro b hb0 hb
     have h1 := table_fact _ _ lower_ascii b.toNat (by have := tables_size.2; omega)
     have hd : decide (128 ≤ b.toNat) = false := decide_eq_false (by omega)
     simp only [hd, Bool.false_or, Bool.and_eq_true, beq_iff_eq, UInt8.ofNat_toNat] at h1
     have hc : b.toNat < lowerCut := by have := cutovers.2.1; omega
-    simp [mapCode, hc, tableBytes, h1.1, h1.2]
-  have key : ∀ (f : Nat → List UInt8) (g : UInt8 → UInt8), (∀ b : UInt8, b.toNat < 128 → f b.toNat = [g b]) →
+    simp [mapGroup, nz b hb0, mapCode, hc, tableBytes, h1.1, h1.2]
+  have key : ∀ (f : Nat × List UInt8 → List UInt8) (g : UInt8 → UInt8),
+      (∀ b : UInt8, b ≠ 0 → b.toNat < 128 → f (b.toNat, [b]) = [g b]) →
       ∀ t : List UInt8, (∀ b ∈ t, b ≠ 0 ∧ b.toNat < 128) →
-      (t.map fun b => (b.toNat, 1)).flatMap (fun cn => f cn.1) = t.map g := by
+      (t.map fun b => (b.toNat, [b])).flatMap f = t.map g := by
     intro f g hf t
     induction t with
     | nil => simp
     | cons b t ih =>
       intro ht
       simp only [List.map_cons, List.flatMap_cons]
-      rw [hf b (ht b (by simp)).2, ih (fun c hc => ht c (by simp [hc]))]
+      rw [hf b (ht b (by simp)).1 (ht b (by simp)).2, ih (fun c hc => ht c (by simp [hc]))]
       rfl
   constructor
-  · simp only [toUpperCase, caseMap, enum_ascii s h, Option.map_some]
+  · simp only [toUpperCase, caseMap, raw_ascii s h, Option.map_some]
     rw [key _ _ hu s h]
-  · simp only [toLowerCase, caseMap, enum_ascii s h, Option.map_some]
+  · simp only [toLowerCase, caseMap, raw_ascii s h, Option.map_some]
     rw [key _ _ hl s h]
+
+/-- the case functions never emit a NUL byte (undecodable bytes are copied through, repaired in 8124a21):
+    `length()` of the result is the offset of its terminator -/
+theorem case_no_nul (s out : List UInt8) :
+    (toUpperCase s = some out → ∀ b ∈ out, b ≠ 0) ∧ (toLowerCase s = some out → ∀ b ∈ out, b ≠ 0) := by
+  constructor
+  · exact caseMap_no_nul _ _ upper_shape2 (by decide) table_reads_in_bounds.1 s out
+  · exact caseMap_no_nul _ _ lower_shape2 (by decide) table_reads_in_bounds.2.1 s out
 
 /-- case-insensitive equality coincides with equality of the lower-cased forms, for every pair of byte strings
     (well-formed or not; both functions stay inside their inputs) -/
 theorem nocase_iff_lower_eq (s t : List UInt8) :
     ∃ e la lb, equalsNocase s t = some e ∧ toLowerCase s = some la ∧ toLowerCase t = some lb ∧
       (e = true ↔ la = lb) := by
-  have h1 := enum_some (mem s) (hasNul_mem s)
-  have h2 := enum_some (mem t) (hasNul_mem t)
-  cases ha : enumAll (mem s) with
+  have h1 := raw_some (mem s) (hasNul_mem s)
+  have h2 := raw_some (mem t) (hasNul_mem t)
+  cases ha : enumRaw (mem s) with
   | none => simp [ha] at h1
   | some A =>
-    cases hb : enumAll (mem t) with
+    cases hb : enumRaw (mem t) with
     | none => simp [hb] at h2
     | some B =>
-      refine ⟨nocaseLoop A B, A.flatMap (fun p => lowerOf p.1), B.flatMap (fun p => lowerOf p.1), ?_, ?_, ?_, ?_⟩
+      have bound : ∀ (m : List UInt8) (L : List (Nat × List UInt8)), enumRaw m = some L → ∀ g ∈ L, g.1 < 2097152 := by
+        intro m L hL g hg
+        have := raw_ok m L hL g hg
+        unfold okPair at this; simp only at this; omega
+      refine ⟨nocaseLoop A B, A.flatMap wordL, B.flatMap wordL, ?_, ?_, ?_, ?_⟩
       · simp [equalsNocase, ha, hb]
-      · simp [toLowerCase, caseMap, ha, lowerOf]
-      · simp [toLowerCase, caseMap, hb, lowerOf]
-      · exact nocaseLoop_iff lower_shape lower_order lower_cut_entry tables_size.2 A B
-          (enum_ok (mem s) A ha) (enum_ok (mem t) B hb)
+      · simp only [toLowerCase, caseMap, ha, Option.map_some]; rfl
+      · simp only [toLowerCase, caseMap, hb, Option.map_some]; rfl
+      · exact nocaseLoop_iff lower_shape lower_shape2 lower_order lower_cut_entry tables_size.2 A B
+          (raw_groups (mem s) A ha) (raw_groups (mem t) B hb) (bound _ A ha) (bound _ B hb)
 
 /-! ## the wide-string scratch area: `fixW()` converts in place, `String(const Array<wchar_t>&)` -/
 
@@ -675,7 +695,13 @@ example : (match fixWLoop 4 12 [0x41, 0x42] 0 0 12 with | .error f => f == Fault
 -- U+FFFF (`L"\\U0001F600"`, one unit 0x1F600) takes the 3-byte branch with a truncated lead byte — in bounds, ill-formed
 -- output, outside the property (recorded in outside_findings.txt); the model says what the code does on this platform
 example : fromWide [0x1F600, 0] = some [0xFF, 0x98, 0x80] := by decide +kernel
--- not part of the property, recorded: the two-byte table truncates 3-byte images (U+023F ȿ ↦ U+2C7E = E2 B1 BE)
-example : toUpperCase [0xC8, 0xBF] = some [0xE2, 0xB1] := by decide +kernel
+-- the two-byte table cannot hold 3-byte images (U+023F ȿ ↦ U+2C7E): such code points map to themselves (repaired in b3f3f80;
+-- the entries used to be the cut-off first two bytes E2 B1)
+example : toUpperCase [0xC8, 0xBF] = some [0xC8, 0xBF] := by decide +kernel
+-- undecodable bytes are copied through and compared as they are (repaired in 8124a21; they used to become a NUL byte)
+example : toUpperCase [0x61, 0x62, 0xC3] = some [0x41, 0x42, 0xC3] := by decide +kernel
+example : toLowerCase [0x41, 0xC0, 0x80, 0x42] = some [0x61, 0xC0, 0x80, 0x62] := by decide +kernel
+example : equalsNocase [0x61, 0x62, 0xC3] [0x41, 0x42, 0xC3] = some true := by decide +kernel
+example : equalsNocase [0x61, 0x62, 0xC3] [0x41, 0x42, 0xE2] = some false := by decide +kernel
 
 end C08
